@@ -4,6 +4,20 @@
 From RG Require Import Base.Bytes Base.BytesFacts Model.Lines Model.SearcherCore Model.Glue
   Spec.GrepSpec Proofs.LinesProofs Proofs.CoreSinkProofs Proofs.SlowPathProofs Proofs.PrefixLaw Proofs.PrefixCore.
 
+Lemma nth_error_firstn_lt {A} : forall n (l : list A) k, k < n -> nth_error (firstn n l) k = nth_error l k.
+Proof.
+  induction n as [|n IH]; intros l k H; [lia|]. destruct l as [|x l]; [destruct k; reflexivity|].
+  destruct k as [|k]; [reflexivity|]. cbn. apply IH. lia.
+Qed.
+
+Lemma nth_error_skipn {A} : forall a (l : list A) k, nth_error (skipn a l) k = nth_error l (a + k).
+Proof.
+  induction a as [|a IH]; intros l k; [reflexivity|]. destruct l as [|x l]; [destruct k; reflexivity|]. cbn. apply IH.
+Qed.
+
+Lemma nth_error_sub {A} (l : list A) a b k : a + k < b -> nth_error (sub l a b) k = nth_error l (a + k).
+Proof. intro H. unfold sub. rewrite nth_error_firstn_lt by lia. apply nth_error_skipn. Qed.
+
 Section Fast.
   Variable cfg : config.
   Variable M : matcher.
@@ -15,9 +29,31 @@ Section Fast.
 
   Definition pmatch (l : bytes) : bool := m_is_match M (without_terminator (c_lt cfg) l).
 
-  (* the contract of find_by_line_fast on a buffer of whole lines *)
+  (* p is a line start: the beginning of the buffer or right after a terminator *)
+  Definition bnd (p : nat) : Prop := p = 0 \/ nth_error s (p - 1) = Some ltb.
+
+  Lemma bnd_next q l : next_line cfg s q l -> terminated ltb l -> bnd (q + length l).
+  Proof.
+    intros (Hsub & Hb & _) (body & -> & Hbody). right.
+    assert (Hn : nth_error (sub s q (q + length (body ++ [ltb]))) (length body) = Some ltb).
+    { rewrite Hsub. rewrite nth_error_app2 by lia. replace (length body - length body) with 0 by lia. reflexivity. }
+    rewrite nth_error_sub in Hn by (rewrite app_length; cbn; lia). rewrite <- Hn. f_equal. rewrite app_length. cbn. lia.
+  Qed.
+
+  Lemma bnd_seq : forall pre p, lines_seq cfg s pre p -> Forall (terminated ltb) pre -> pre <> [] ->
+    bnd (p + length (concat pre)).
+  Proof.
+    induction pre as [|x r IH]; intros p Hs Ht Hne; [congruence|].
+    destruct Hs as (Hnl & _ & Hr). inversion Ht as [|? ? Hx Hr']; subst.
+    cbn [concat]. rewrite app_length, Nat.add_assoc.
+    destruct r as [|y r'].
+    - cbn [concat length]. rewrite Nat.add_0_r. apply bnd_next; assumption.
+    - apply IH; [exact Hr|exact Hr'|discriminate].
+  Qed.
+
+  (* the contract of find_by_line_fast on a buffer of whole lines, searched from a line start *)
   Definition find_spec : Prop :=
-    forall c ls p, pos c = p -> lines_at cfg s ls p ->
+    forall c ls p, pos c = p -> lines_at cfg s ls p -> bnd p ->
       match find_by_line_fast cfg M c s with
       | None => False
       | Some None => Forall (fun l => pmatch l = false) ls
@@ -79,11 +115,11 @@ Section Fast.
 
   (* the fast loop over all the remaining lines *)
   Lemma fast_lines : forall fuel ls c g p,
-    lines_at cfg s ls p -> R cfg s c g -> g_off g = p -> g_stopped g = false -> length ls < fuel ->
+    lines_at cfg s ls p -> (ls <> [] -> bnd p) -> R cfg s c g -> g_off g = p -> g_stopped g = false -> length ls < fuel ->
     let gf := fold_left gstep ls g in
     exists b c', fast_then cfg M true K kslow fuel c s = OK b c' /\ Rfin c' gf /\ (b = true -> g_off gf = length s).
   Proof.
-    induction fuel as [|f IH]; intros ls c g p Hat HR Hoff Hns Hf gf; [lia|].
+    induction fuel as [|f IH]; intros ls c g p Hat Hbnd HR Hoff Hns Hf gf; [lia|].
     destruct HR as (Rpos & Rmatched & HR0).
     pose proof (lines_at_total ls p Hat) as Htot.
     pose proof (lines_count ls p Hat) as Hcnt.
@@ -128,7 +164,8 @@ Section Fast.
       - lia. }
     rewrite Hnoinv.
     assert (Hstopg : c_stop_on_nonmatch cfg && g_matched g = false) by (rewrite <- Rmatched; exact Estop).
-    pose proof (Hfind c ls p (eq_trans Rpos Hoff) Hat) as Hf'.
+    assert (Hlsne : ls <> []) by (intro E; subst ls; cbn in Htot; lia).
+    pose proof (Hfind c ls p (eq_trans Rpos Hoff) Hat (Hbnd Hlsne)) as Hf'.
     destruct (find_by_line_fast cfg M c s) as [[[q e]|]|]; [| |contradiction].
     2:{ destruct (Hfinish Hf' Hstopg) as (c' & Hrun & Hfin & Hoffgf).
         exists true, c'. auto. }
@@ -205,6 +242,7 @@ Section Fast.
         apply R0_set_pos. apply HR4. apply Hlterm. discriminate. }
       rewrite Hgf. apply (IH (l2 :: post2) (set_pos c4 e) g' e); auto.
       + now subst e.
+      + intros _. subst e. apply bnd_next; [exact Hnl|apply Hlterm; discriminate].
       + subst e. exact Hoff'.
       + rewrite app_length in Hf. cbn in Hf |- *. lia.
   Qed.
@@ -254,7 +292,7 @@ Section Fast.
     - unfold match_by_line_fast.
       pose proof (conv_fast_loop cfg M true K (fun c => match_by_line_slow cfg M K true c s) s
                     (S (S (length s))) c0) as Hconv.
-      destruct (fast_lines (S (S (length s))) (split_lines ltb s) c0 g_init 0 Hat HR0 eq_refl eq_refl ltac:(lia))
+      destruct (fast_lines (S (S (length s))) (split_lines ltb s) c0 g_init 0 Hat (fun _ => or_introl eq_refl) HR0 eq_refl eq_refl ltac:(lia))
         as (b & c' & Hrun & Hfin & Hb).
       rewrite Hrun in Hconv.
       exists b, c'. split; [|split; assumption].
@@ -456,13 +494,13 @@ Section FastInv.
   Lemma inv_lines : forall fuel ls c g0 lag,
     R0 cfg s c g0 -> has_matched c = g_matched g0 -> g_stopped g0 = false ->
     lines_at cfg s (lag ++ ls) (g_off g0) -> Forall (fun l => pm l = true) lag ->
-    pos c = g_off g0 + length (concat lag) ->
+    pos c = g_off g0 + length (concat lag) -> (ls <> [] -> bnd cfg s (pos c)) ->
     (c_stop_on_nonmatch cfg && g_matched g0 = true -> lag = []) ->
     length ls < fuel ->
     let gf := fold_left gstep ls (fold_left gstep lag g0) in
     exists b c', fast_then cfg M true K kslow fuel c s = OK b c' /\ Rfin c' gf /\ (b = true -> g_off gf = length s).
   Proof.
-    induction fuel as [|f IH]; intros ls c g0 lag HR0 Rmatched Hns Hat Hlagp Hpos Hstoplag Hf gf; [lia|].
+    induction fuel as [|f IH]; intros ls c g0 lag HR0 Rmatched Hns Hat Hlagp Hpos Hbnd Hstoplag Hf gf; [lia|].
     destruct (lines_at_app lag ls (g_off g0) Hat) as (Hlagseq & Hlagterm & Hatls).
     rewrite <- Hpos in Hatls.
     remember (pos c) as p eqn:Ep.
@@ -504,7 +542,9 @@ Section FastInv.
       - lia. }
     rewrite Hinv.
     assert (Hstopg : c_stop_on_nonmatch cfg && g_matched g0 = false) by (rewrite <- Rmatched; exact Estop).
-    pose proof (Hfind c ls p (eq_sym Ep) Hatls) as Hf'.
+    assert (Hlsne : ls <> []) by (intro E; subst ls; cbn in Htot; lia).
+    pose proof (Hbnd Hlsne) as Hbp. rewrite <- ?Ep in Hbp.
+    pose proof (Hfind c ls p (eq_sym Ep) Hatls Hbp) as Hf'.
     unfold match_by_line_fast_invert.
     destruct (find_by_line_fast cfg M c s) as [[[q e]|]|]; [| |contradiction].
     - (* a line the pattern matches was found *)
@@ -525,6 +565,7 @@ Section FastInv.
         * apply Forall_app. split; [exact Hlagp|]. constructor; [exact Hl|constructor].
         * cbn [pos set_pos]. rewrite concat_app, app_length. cbn [concat length]. rewrite app_nil_r.
           lia.
+        * intro Hpne. cbn [pos set_pos]. subst e. apply (bnd_next cfg s); [exact Hnl|apply Hlterm; exact Hpne].
         * intro H. rewrite H in Hstopg. discriminate.
         * cbn in Hf. lia.
       + (* a non-empty range of result lines *)
@@ -552,6 +593,8 @@ Section FastInv.
           -- rewrite Q2. symmetry. apply Q7. discriminate.
           -- cbn [app]. rewrite Q5'. split; [exact Hnl|]. split; [exact Hlterm|exact Hpost].
           -- cbn [concat length]. rewrite Q1, Q5'. unfold c1. rewrite ?Ecs. cbn [pos set_has_matched set_pos]. lia.
+          -- intros _. rewrite Q1. unfold c1. rewrite ?Ecs. cbn [pos set_has_matched set_pos]. rewrite Hq.
+             apply (bnd_seq cfg s); [exact Hseq|exact Hterm|discriminate].
           -- rewrite app_length in Hf. cbn in Hf |- *. lia.
         * assert (Hgf2 : gf = fold_left gstep post (fold_left gstep [l] gn)).
           { rewrite Hgf. reflexivity. }
@@ -560,6 +603,8 @@ Section FastInv.
           -- rewrite Q2. symmetry. apply Q7. discriminate.
           -- cbn [app]. rewrite Q5'. split; [exact Hnl|]. split; [exact Hlterm|exact Hpost].
           -- cbn [concat length]. rewrite app_nil_r. rewrite Q1, Q5'. unfold c1. rewrite ?Ecs. cbn [pos set_has_matched set_pos]. lia.
+          -- intro Hpne. rewrite Q1. unfold c1. rewrite ?Ecs. cbn [pos set_has_matched set_pos]. subst e.
+             apply (bnd_next cfg s); [exact Hnl|apply Hlterm; exact Hpne].
           -- cbn [andb]. discriminate.
           -- rewrite app_length in Hf. cbn in Hf |- *. lia.
     - (* no further line matches the pattern: all the remaining lines are results *)
@@ -601,7 +646,7 @@ Section FastInv.
       pose proof (conv_fast_loop cfg M true K (fun c => match_by_line_slow cfg M K true c s) s
                     (S (S (length s))) c0) as Hconv.
       destruct (inv_lines (S (S (length s))) (split_lines ltb s) c0 g_init [] HR0 Hm0 eq_refl Hat
-                  (Forall_nil _) Hp0 (fun _ => eq_refl) ltac:(lia))
+                  (Forall_nil _) Hp0 (fun _ => or_introl eq_refl) (fun _ => eq_refl) ltac:(lia))
         as (b & c' & Hrun & Hfin & Hb).
       rewrite Hrun in Hconv.
       exists b, c'. split; [|split; assumption].
